@@ -117,4 +117,8 @@ def o02_7(tier):
         for k in ((0, 1) if tier == "quick" else (0, 1, 2, 4)):
             for ig in ((False, True) if shape in ("four_fold", "tri_star") else (False,)):
                 out.append((f"{shape},k={k},ignore_four={ig}", mk(shape, k, ig)))
+    # C07: the same tissues under other labellings, cycle starts, orientations and construction orders
+    for shape in ("tri_star", "double_y", "four_fold", "tri_star_ear"):
+        for v in ((1, 2) if tier == "quick" else (1, 2, 3)):
+            out.append((f"{shape}~v{v},k=1,ignore_four=False", mk(f"{shape}~v{v}", 1, False)))
     return out
